@@ -3,6 +3,7 @@ CONSTANT Procs = {"p1", "p2", "p3"}
 CONSTANT Jobs = {"a", "b", "c", "d"}
 CONSTANT StrictEvents = FALSE
 CONSTANT FixF5 = TRUE
+CONSTANT FixF23 = TRUE
 CONSTANT AddFirst = TRUE
 CONSTRAINT Progress
 POSTCONDITION Accepted
